@@ -185,6 +185,28 @@ CHECKS = {
        "(the harness's own mmCIF emitter is validated against it on every document).",
   technique="Lean 4 proof (pipeline stages, counter-examples for the unrepaired configurations) + correspondence on generated PDB/mmCIF tables (multi-model, altlocs, null markers) and corpus files",
   ref="9/C08"),
+ "C03": dict(
+  text="Lean theorems (Props.C03): for EVERY processing order of the label multiset (so KD-tree set order and most_common tie-breaks are "
+       "irrelevant) the edge-occupation stage is sound, exclusive and maximal (greedy_sound, greedy_exclusive, greedy_maximal, "
+       "spec_of_sandwich); over ℝ the 50–130° clause is equivalent to (n·v)² < cos²50°·|n|²|v|² (angle_range_iff) with a rational "
+       "enclosure of cos²50° PROVED to enclose (cosSq50_encloses), cis/trans is the sign of (v₁×v₂)·(v₂×v₃) (cis_iff), and the exact "
+       "rational model is sound for the real-number conditions (model_*_sound). Bridges pin the regenerated chemistry tables and "
+       "thresholds 4.0 Å / 50° / 130° / 2 and that each atom is listed once (points_nodup — the O2' doubling fixed in f3fb2f0).",
+  note="That the float / KD-tree stage hands the occupation stage a label multiset between 'base-to-base contacts' and 'all contacts' is "
+       "carried by the relational correspondence (exact contact sets recomputed in Rat; contacts within 1e-6 of a threshold undecided), "
+       "not by proof; O2' contacts count as support only, as the property says.",
+  technique="Lean 4 proof (greedy edge occupation for every order; ℝ-level angle/torsion equivalences; proved cos²50° enclosure) + relational correspondence against exact contact sets on corpus, motions and threshold placements",
+  ref="9/C03"),
+ "C11": dict(
+  text="Lean theorems (Props.C11): decide-checked facts about the regenerated tables — saenger_reverse_consistent (a pair and its reverse "
+       "get the same Saenger class), saenger_present_iff_defined, lw_reverse_involutive/closed/swaps_edges — and about the assembly stage: "
+       "pairs_sorted_nodup_oriented (sorted, no repeats, lower residue first, no self pairs), mergeClean_one_class_per_pair, "
+       "mergeClean_rules (3∧5→4, 7∧9→8), bph_class_from_donor / bph_class_decided (class implied by the donor atoms in contact). The "
+       "well-formedness specification is evaluated on the real extract_base_interactions output for every structure and model.",
+  note="Participants ⊆ residues of the analysed model and the 4.0 Å donor→oxygen distance are checked on real outputs (exact rational "
+       "re-derivation), not proved of the float code; write_csv/write_json rows are compared with the lists.",
+  technique="Lean 4 proof by decide over regenerated tables + assembly-stage theorems + specification predicates on real annotations of all models",
+  ref="9/C11"),
 }
 
 NOT_YET = {}
